@@ -84,6 +84,12 @@ func (fc *fileCtx) raceInstrument() {
 	// addrObjs: local struct variables whose address is taken somewhere (&e handed to a decoder, stored in
 	// a map, ...): once published their fields are as shared as those behind a pointer
 	addrObjs := map[types.Object]bool{}
+	// captured: local variables of a function that a `go func() {...}()` closure refers to and that are
+	// assigned somewhere after their declaration; their reads and writes are reported like field accesses.
+	// defineLHS: identifiers on the left of := or of a range clause (cannot be wrapped).
+	captured := map[types.Object]bool{}
+	assigned := map[types.Object]bool{}
+	defineLHS := map[*ast.Ident]bool{}
 	atomics := map[ast.Expr]string{}
 
 	unparen := func(e ast.Expr) ast.Expr {
@@ -100,13 +106,59 @@ func (fc *fileCtx) raceInstrument() {
 	ast.Inspect(fc.file, func(n ast.Node) bool {
 		switch v := n.(type) {
 		case *ast.AssignStmt:
-			if v.Tok != token.DEFINE {
-				for _, l := range v.Lhs {
+			for _, l := range v.Lhs {
+				if v.Tok != token.DEFINE {
 					writes[unparen(l)] = true
 				}
+
+				if id, ok := unparen(l).(*ast.Ident); ok {
+					if v.Tok == token.DEFINE {
+						defineLHS[id] = true
+					}
+
+					if obj := info.Uses[id]; obj != nil {
+						assigned[obj] = true // also a redeclaration in := assigns the existing variable
+					}
+				}
+			}
+		case *ast.RangeStmt:
+			for _, x := range []ast.Expr{v.Key, v.Value} {
+				if id, ok := x.(*ast.Ident); ok {
+					defineLHS[id] = true
+
+					if obj := info.Uses[id]; obj != nil {
+						assigned[obj] = true
+					}
+				}
+			}
+		case *ast.GoStmt:
+			if fl, ok := v.Call.Fun.(*ast.FuncLit); ok {
+				ast.Inspect(fl.Body, func(m ast.Node) bool {
+					id, ok := m.(*ast.Ident)
+					if !ok {
+						return true
+					}
+
+					obj, ok := info.Uses[id].(*types.Var)
+					if !ok || obj.IsField() || obj.Pkg() == nil || obj.Parent() == obj.Pkg().Scope() {
+						return true
+					}
+
+					if obj.Pos() < fl.Pos() || obj.Pos() > fl.End() {
+						captured[obj] = true
+					}
+
+					return true
+				})
 			}
 		case *ast.IncDecStmt:
 			writes[unparen(v.X)] = true
+
+			if id, ok := unparen(v.X).(*ast.Ident); ok {
+				if obj := info.Uses[id]; obj != nil {
+					assigned[obj] = true
+				}
+			}
 		case *ast.UnaryExpr:
 			if v.Op == token.AND {
 				addrOf[unparen(v.X)] = true
@@ -206,6 +258,19 @@ func (fc *fileCtx) raceInstrument() {
 				fc.wrap(v.X, 3, "zzverifsim.ReadAllP(", ", "+lbl(v, "struct-copy")+")")
 				stats["race.structcopy"]++
 			}
+		case *ast.Ident:
+			obj := info.Uses[v]
+			if obj == nil || !captured[obj] || !(assigned[obj] || addrObjs[obj]) || inside(v) || addrOf[v] || defineLHS[v] {
+				return true
+			}
+
+			fn := "R"
+			if writes[v] {
+				fn = "W"
+			}
+
+			fc.wrap(v, 0, "(*zzverifsim."+fn+"(&", ", "+lbl(v, "var-"+v.Name)+"))")
+			stats["race.captured"+fn]++
 		case *ast.SelectorExpr:
 			s := info.Selections[v]
 			if s == nil || s.Kind() != types.FieldVal || inside(v) {
